@@ -49,9 +49,12 @@ class StoreSpec(corevc.Spec):
         if obj.kind == 'config':
             if attr == 'has_option' and len(args) == 2:
                 return SV('bool', has_opt(sym.term(args[0]), sym.term(args[1])))
-            if attr == 'get' and len(args) == 2:
+            if attr == 'get' and len(args) == 2 and set(kwargs) <= {'fallback'}:
                 it.ghost.setdefault('calls', []).append(('get', None))
-                return SV('str', get_opt(sym.term(args[0]), sym.term(args[1])))
+                got = get_opt(sym.term(args[0]), sym.term(args[1]))
+                if 'fallback' in kwargs:     # configparser: the fallback is returned exactly when the option is absent
+                    got = z3.If(has_opt(sym.term(args[0]), sym.term(args[1])), got, sym.term(kwargs['fallback']))
+                return SV('str', got)
         raise Unsupported(f'opaque {obj.kind}.{attr}')
 
 
@@ -118,7 +121,7 @@ def store_getitem():
 
 
 def native_store():
-    """Replay: run the real InputStore on concrete cases of the four outcomes."""
+    """Replay: run the real InputStore on concrete cases of the four outcomes, for every input class."""
     import configparser
     from habutax import inputs
 
@@ -139,7 +142,21 @@ def native_store():
         except BaseException as ex:
             out.append({'text': text, 'raised': type(ex).__name__})
     want = [{'text': '5', 'returned': '5'}, {'text': 'nope', 'raised': 'InvalidInput'}, {'text': None, 'raised': 'MissingInput'}]
-    return {'reproduced': out != want, 'runs': out}
+    bad = out != want
+    # an input that was not supplied must be reported missing, whatever its type and options
+    for name, make, kind in input_cases():
+        cfg = configparser.ConfigParser()
+        cfg.add_section('f')
+        i = make()
+        st = inputs.InputStore(cfg, {'f.x': i})
+        try:
+            r = {'class': name, 'text': None, 'returned': repr(st['f.x'])}
+        except BaseException as ex:
+            r = {'class': name, 'text': None, 'raised': type(ex).__name__}
+        if r.get('raised') != 'MissingInput':
+            bad = True
+            out.append(r)
+    return {'reproduced': bad, 'runs': out}
 
 
 class InputInterp(sym.Interp):
